@@ -4,15 +4,12 @@
 
 """Logic to convert a .reuse/dep5 file to a REUSE.toml file."""
 
-import re
 from typing import Any, Iterable, Optional, TypeVar, Union, cast
 
 import tomlkit
 from debian.copyright import Copyright, FilesParagraph, Header
 
 from .global_licensing import REUSE_TOML_VERSION
-
-_SINGLE_ASTERISK_PATTERN = re.compile(r"(?<!\*)\*(?!\*)")
 
 _T = TypeVar("_T")
 
@@ -58,7 +55,25 @@ def _convert_asterisk(path: str) -> str:
     """This solves a semantics difference. A singular asterisk is semantically
     identical to a double asterisk in REUSE.toml.
     """
-    return _SINGLE_ASTERISK_PATTERN.sub("**", path)
+    result = []
+    index = 0
+    while index < len(path):
+        if path[index] == "\\":
+            # An escaped character (such as a literal asterisk) stays as it
+            # is.
+            result.append(path[index : index + 2])
+            index += 2
+            continue
+        run_end = index
+        while run_end < len(path) and path[run_end] == "*":
+            run_end += 1
+        if run_end == index:
+            result.append(path[index])
+            index += 1
+        else:
+            result.append("**" if run_end - index == 1 else path[index:run_end])
+            index = run_end
+    return "".join(result)
 
 
 def _paths_from_paragraph(paragraph: FilesParagraph) -> Union[str, list[str]]:
